@@ -464,7 +464,7 @@ pub fn judge(p: &NetPlan, o: &HttpOutcome, s: &Side, verbose: bool) -> Judgement
                 1 => match k.rec.and_then(|idx| recs[slot].get(&idx)) {
                     None => { optional = true; (k.done_at, u64::MAX, HKind::Either) }
                     Some(r) => {
-                        if r.closed_by_us && r.raw_in_total == 0 { (r.t_close.min(k.done_at), r.t_close + EPS, HKind::Fail) }
+                        if r.closed_by_us && r.raw_in_total == 0 { (r.t_close.min(k.done_at), r.t_close.max(k.done_at) + EPS, HKind::Fail) } // sozu learns of the close between the mock's close and the end of its own connect
                         else if let (Some(q), true) = (r.requests.first(), r.responded.first().map_or(false, |x| x.2 > 0 && x.1 >= x.2)) {
                             // which answer was the mock configured with? (flips are recorded with their virtual times)
                             let mut kind_now = p.slots[slot].probe % 3;
